@@ -143,6 +143,7 @@ public:
 
   void setBreakPoints(const std::vector<size_t>& breakPoints) override
   {
+    checkBreakPoints_(breakPoints, nbSites_);
     breakPoints_ = breakPoints;
     computeForward_();
   }
